@@ -654,7 +654,7 @@ impl SvgElement {
             return Ok(None);
         }
         let zstr = "0".to_owned();
-        match (target_shape, self.name.as_str()) {
+        let inscribed = match (target_shape, self.name.as_str()) {
             // rect inside circle
             ("rect", "circle") => {
                 if let Some(r) = self.attrs.get("r") {
@@ -663,9 +663,9 @@ impl SvgElement {
                     let cx = strp(cx)?;
                     let cy = strp(cy)?;
                     let r = strp(r)? * FRAC_1_SQRT_2;
-                    Ok(Some(BoundingBox::new(cx - r, cy - r, cx + r, cy + r)))
+                    Some(BoundingBox::new(cx - r, cy - r, cx + r, cy + r))
                 } else {
-                    Ok(None)
+                    None
                 }
             }
             // rect inside ellipse
@@ -677,14 +677,20 @@ impl SvgElement {
                     let cy = strp(cy)?;
                     let rx = strp(rx)? * FRAC_1_SQRT_2;
                     let ry = strp(ry)? * FRAC_1_SQRT_2;
-                    Ok(Some(BoundingBox::new(cx - rx, cy - ry, cx + rx, cy + ry)))
+                    Some(BoundingBox::new(cx - rx, cy - ry, cx + rx, cy + ry))
                 } else {
-                    Ok(None)
+                    None
                 }
             }
             // Trivial cases: same shape
-            _ => self.bbox(),
+            _ => return self.bbox(),
+        };
+        // as bbox() does: the inscribed box is in the coordinate system the element is drawn in
+        if let (Some(transform), Some(bbox)) = (self.get_attr("transform"), &inscribed) {
+            let transform: TransformAttr = transform.parse()?;
+            return Ok(Some(transform.apply(bbox)));
         }
+        Ok(inscribed)
     }
 
     pub fn get_target_element(&self, ctx: &impl ElementMap) -> Result<SvgElement> {
